@@ -483,13 +483,14 @@ func (fr *frame) finishLoop(li *loopInfo) {
 			}
 		}
 	}
+	defer fr.loopFrameObligations(li)
 	mod := map[string]bool{}
 	for blk := range li.blocks {
 		for k := range fr.written[blk] {
 			mod[k] = true
 		}
 	}
-	li.hav.finalize(u, mod, mod["*"])
+	li.hav.finalize(u, mod, mod["*"] || mod["*conc"])
 }
 
 func (u *Unit) bindingError(msg string) {
@@ -579,4 +580,26 @@ func (u *Unit) strConst(s string) string {
 		}
 	}
 	return n
+}
+
+// loopFrameObligations: the implicit frame invariant of a loop (objects that existed when the
+// function was entered and are not named by its modifies clause are unchanged) is checked on
+// loop entry and on every back edge for the keys the loop modifies.
+func (fr *frame) loopFrameObligations(li *loopInfo) {
+	u := fr.u
+	if !u.frameInv || li.hav == nil || li.hav.all {
+		return
+	}
+	for _, k := range sortedKeys(li.hav.frameKeys) {
+		if !li.hav.modified[k] {
+			continue
+		}
+		goal := func(st *state) string { return u.frameFact(k, st.get(u, k)) }
+		u.addObl(fmt.Sprintf("loop%d.frame.init", li.ord), "implicit frame invariant of the loop holds on entry: "+k, fr.pos(firstPos(li.header)), li.entryCur, goal(li.entry))
+		var gs []string
+		for _, be := range li.backs {
+			gs = append(gs, "(=> "+be.cond+" "+goal(be.st)+")")
+		}
+		u.addObl(fmt.Sprintf("loop%d.frame.pres", li.ord), "implicit frame invariant of the loop is preserved: "+k, fr.pos(firstPos(li.header)), "true", "(and true "+strings.Join(gs, " ")+")")
+	}
 }
